@@ -70,6 +70,14 @@ def _logreg(classes, missing_label=NAN):
     return SklearnClassifier(LogisticRegression(random_state=0, max_iter=50), classes=classes, missing_label=missing_label, random_state=0)
 
 
+def _gnb(classes, missing_label=NAN):
+    from sklearn.naive_bayes import GaussianNB
+
+    from skactiveml.classifier import SklearnClassifier
+
+    return SklearnClassifier(GaussianNB(var_smoothing=1.0), classes=classes, missing_label=missing_label, random_state=0)
+
+
 def _ensemble_list(classes, missing_label=NAN):
     return [_pwc(classes, missing_label, metric_dict={"gamma": g}) for g in (0.1, 0.7, 3.0)]
 
@@ -173,6 +181,8 @@ class Subject:
             return {"clf": _pwc(classes, missing_label)}
         if m == "logreg":
             return {"clf": _logreg(classes, missing_label)}
+        if m == "gnb":
+            return {"clf": _gnb(classes, missing_label)}
         if m == "mixture":
             return {"clf": _mixture(classes, X, missing_label)}
         if m == "ens_list":
@@ -232,6 +242,9 @@ SUBJECTS = [
     Subject("MonteCarloEER[misclassification_loss]", "MonteCarloEER", {"method": "misclassification_loss"}, "pwc", samplewise=True, cost=5),
     Subject("MonteCarloEER[log_loss]", "MonteCarloEER", {"method": "log_loss"}, "pwc", samplewise=True, cost=5),
     Subject("MonteCarloEER[subtract_current]", "MonteCarloEER", {"subtract_current": True}, "pwc", samplewise=True, cost=5),
+    # the incremental path of the index wrapper (native partial_fit of the wrapped classifier instead of re-fitting)
+    Subject("MonteCarloEER[gnb,partial_fit]", "MonteCarloEER", {"method": "misclassification_loss"}, "gnb", samplewise=True, cost=5,
+            query_extra={"ignore_partial_fit": False}),
     Subject("ValueOfInformationEER", "ValueOfInformationEER", {}, "pwc", samplewise=True, cost=5),
     Subject("ValueOfInformationEER[subtract_current,normalize]", "ValueOfInformationEER", {"subtract_current": True, "normalize": True}, "pwc",
             samplewise=True, cost=5),
